@@ -102,7 +102,8 @@ class StructVal:
             elif not lo <= v <= hi:
                 raise it.exc("StructError", "integer out of range for format")
             if signed:
-                raise Unsupported("signed struct fields")
+                # two's complement of a value already known to be inside [lo, hi]
+                v = v % (1 << (8 * sz)) if not is_sym(v) else sym.ite(v < 0, v + (1 << (8 * sz)), v)
             bs = [(v >> (8 * i)) & 0xFF for i in range(sz)]
             if self.big:
                 bs.reverse()
@@ -178,9 +179,16 @@ class StructVal:
             if kind == "bytes":
                 out.append(BytesVal(chunk))
                 continue
-            if signed:
-                raise Unsupported("signed struct fields")
             bs = chunk if self.big else list(reversed(chunk))
+            if signed:
+                acc = 0
+                for b in bs:
+                    if isinstance(b, SBV):
+                        b = b.to_int()
+                    acc = acc * 256 + b
+                half = 1 << (8 * sz - 1)
+                out.append((acc - 2 * half if acc >= half else acc) if not is_sym(acc) else sym.ite(acc >= half, acc - 2 * half, acc))
+                continue
             if bs and all(isinstance(b, SBV) and b.w <= 8 for b in bs):
                 # all bytes are bit-vectors: keep the value a bit-vector (concatenation, high byte first)
                 ts = [b._ext(8) for b in bs]
